@@ -133,6 +133,18 @@ def evaluate(case, out):
             # the same manifest object was prepared before, against a larger card bound (the bound was revised since)
             V.prep_manifest(df, bound + 3, case["n_cvrs"])
             out.cls("manifest-prepared-before")
+        if sizes and len(sizes) % 3 == 1:
+            # the sheet first carried a typing error in one batch's count, large enough to exceed the bound: refused; the
+            # count was corrected in the same sheet, which is now prepared
+            j, col = len(sizes) // 2, df.columns.get_loc("Total Ballots" if dom else "Number of Ballots")
+            df.iloc[j, col] = sizes[j] + bound + 1
+            try:
+                with contextlib.redirect_stdout(io.StringIO()):
+                    V.prep_manifest(df, bound, case["n_cvrs"])
+                out.fail("inconsistent-manifest-accepted", ("typing-error", sizes, j))
+            except AssertionError:
+                out.cls("sheet-refused-once-then-corrected")
+            df.iloc[j, col] = sizes[j]
         man, man_cards, ph = V.prep_manifest(df, bound, case["n_cvrs"])
     except Exception as e:  # noqa
         out.lib_exception("prep_manifest", e)
